@@ -774,6 +774,14 @@ func buildCase(r *rng, o *caseOpts, u *universe, tiers []*gtier, profs []*gprofi
 			epChain = cs[1]
 			failsafe = rules.ChainFailsafeIn
 		}
+	case "hep-fwd":
+		// forward chains take the forwardTiers argument and render no profiles; the normal tiers are decoys
+		cs := renderer.HostEndpointToFilterChains("eth0", nil, tpgs, epm, profIDs)
+		if o.egress {
+			epChain = cs[2]
+		} else {
+			epChain = cs[3]
+		}
 	default:
 		return nil, fmt.Errorf("unknown endpoint kind %q", o.kind)
 	}
@@ -1030,8 +1038,12 @@ func buildCase(r *rng, o *caseOpts, u *universe, tiers []*gtier, profs []*gprofi
 		}
 		ipip = !o.allowIPIP
 	}
-	adminUp := o.adminUp || o.kind == "hep"
-	ecCoq := fmt.Sprintf("(Build_ecfg TNormal %v %s %s %v %s %v %v)", adminUp, fs, allow, !o.disableCtInvalid, vx, ipip, treeProfileFix)
+	adminUp := o.adminUp || o.kind != "wl"
+	ctype := "TNormal"
+	if o.kind == "hep-fwd" {
+		ctype = "TForward"
+	}
+	ecCoq := fmt.Sprintf("(Build_ecfg "+ctype+" %v %s %s %v %s %v %v)", adminUp, fs, allow, !o.disableCtInvalid, vx, ipip, treeProfileFix)
 	var setsCoq []string
 	for id := range w.sets {
 		setsCoq = append(setsCoq, fmt.Sprintf("(%d, %s)", id, coqList(w.sets[id], member.coq)))
@@ -1224,12 +1236,17 @@ func main() {
 		if r.chance(35) {
 			o.ver = 6
 		}
-		if r.chance(25) {
+		if k := r.intn(100); k < 18 {
 			o.kind = "hep"
+		} else if k < 32 {
+			o.kind = "hep-fwd"
 		}
 		u := newUniverse(o.ver)
 		w := genSets(r, u)
 		tiers, profs, tags := genEndpoint(r, u, o)
+		if o.kind == "hep-fwd" {
+			profs = nil // forward chains render no profile jumps; no profile chains are programmed for them here
+		}
 		c, err := buildCase(r, o, u, tiers, profs, w, nil)
 		if err != nil {
 			fail(err)
